@@ -264,7 +264,7 @@ func TestC07(t *testing.T) {
 	r := vkit.Start(t, "C07", "exploration")
 	defer r.Finish()
 	r.Rule("cases = (type, timestamp shape, value shape, length) blocks drawn from splitmix(seed,case#); each is pushed through scalar-encode→{scalar,batch}-decode and batch-encode→{scalar,batch}-decode, column codecs cross-decoded, and simple8b EncodeAll/DecodeAll/Encoder/Decoder; non-trivial = length ≥ 2; distinct = hash of (type, shapes, values)")
-	n := r.N(6000, 400000)
+	n := r.N(30000, 400000)
 	fail := func(path string, w c07Wit) {
 		w.Path = path
 		r.Violation("roundtrip_mismatch", map[string]string{"type": w.Type, "path": path}, w)
